@@ -149,7 +149,206 @@ func genGrpc(repo, out string) {
 	l.line("/-- mapEvent marshals Resource / Old exactly when non-nil and copies Bookmark; watchAdapter unmarshals Resource / Old exactly when non-nil and copies Bookmark -/")
 	l.line("def eventCopies : Bool := %s", leanBool(gSrvEventCopies(mapEvent) && gCliEventCopies(watchAdapter)))
 
+	// ---- 13. watch plumbing: dispatch on the id field, what the client puts on the wire ----
+	l.line("/-- server Watch: the condition of the `if` whose then-branch calls WatchKind / WatchKindAggregated and whose else-branch calls Watch -/")
+	l.line("def watchDispatch : WatchDispatch := %s", gWatchDispatch(method(sf, "State", "Watch")))
+
+	calls := [][2]string{{"Watch", ".watch"}, {"WatchKind", ".watchKind"}, {"WatchKindAggregated", ".watchKindAggregated"}}
+
+	l.line("/-- client: `ApiVersion:` of the `req := &v1alpha1.WatchRequest{..}` literal the method sends unchanged (field absent = 0; not an integer literal, or `req` touched again = -1) -/")
+	l.line("def cliApiVersion : WatchCall → Int")
+
+	for _, c := range calls {
+		l.line("  | %s => %s", c[1], gCliApiVersion(method(cf, "Adapter", c[0])))
+	}
+
+	l.line("/-- client: `Id:` of that literal -/")
+	l.line("def cliIdField : WatchCall → IdField")
+
+	for _, c := range calls {
+		l.line("  | %s => %s", c[1], gCliIdField(method(cf, "Adapter", c[0])))
+	}
+
 	l.write(out, ns)
+}
+
+// gWatchDispatch: server Watch has exactly one `if c { … WatchKind … } else { … server.state.Watch … }`.
+func gWatchDispatch(fd *ast.FuncDecl) string {
+	res, found := ".unknown", 0
+
+	for _, st := range gBody(fd).List {
+		is, ok := st.(*ast.IfStmt)
+		if !ok || is.Init != nil || is.Else == nil {
+			continue
+		}
+
+		els, ok := is.Else.(*ast.BlockStmt)
+		if !ok {
+			continue
+		}
+
+		thenKind := gHasCallPrefix(is.Body, "server.state.WatchKind(") && gHasCallPrefix(is.Body, "server.state.WatchKindAggregated(") &&
+			!gHasCallPrefix(is.Body, "server.state.Watch(")
+		elseSingle := gHasCallPrefix(els, "server.state.Watch(") && !gHasCallPrefix(els, "server.state.WatchKind(") &&
+			!gHasCallPrefix(els, "server.state.WatchKindAggregated(") &&
+			gHasCallPrefix(els, "resource.NewMetadata(req.GetNamespace(), req.GetType(), req.GetId(), resource.VersionUndefined)")
+
+		if !thenKind || !elseSingle {
+			continue
+		}
+
+		found++
+
+		switch src(is.Cond) {
+		case "req.Id == nil":
+			res = ".idAbsent"
+		case `req.GetId() == ""`, `req.GetId() == "" || req.Id == nil`, `req.Id == nil || req.GetId() == ""`, `len(req.GetId()) == 0`:
+			res = ".idEmpty"
+		default:
+			res = ".unknown"
+		}
+	}
+
+	if found != 1 {
+		return ".unknown"
+	}
+
+	return res
+}
+
+// gHasCallPrefix: some call expression under n whose source text starts with prefix.
+func gHasCallPrefix(n ast.Node, prefix string) bool {
+	found := false
+
+	ast.Inspect(n, func(x ast.Node) bool {
+		if c, ok := x.(*ast.CallExpr); ok && strings.HasPrefix(src(c), prefix) {
+			found = true
+		}
+
+		return true
+	})
+
+	return found
+}
+
+// gWatchReqLit: the literal of `req := &v1alpha1.WatchRequest{..}` in a client watch method, provided that
+// `req` is what goes to `adapter.client.Watch(ctx, req)` and nothing else assigns `req` or a field of it.
+func gWatchReqLit(fd *ast.FuncDecl) *ast.CompositeLit {
+	var lit *ast.CompositeLit
+
+	defs, touched, sent := 0, 0, 0
+
+	ast.Inspect(gBody(fd), func(x ast.Node) bool {
+		switch n := x.(type) {
+		case *ast.AssignStmt:
+			for i, lhs := range n.Lhs {
+				t := src(lhs)
+
+				switch {
+				case t == "req" && n.Tok == token.DEFINE && len(n.Lhs) == 1 && len(n.Rhs) == 1:
+					defs++
+
+					if _, ok := n.Rhs[i].(*ast.UnaryExpr); ok {
+						lit = gLit(n.Rhs[i], "v1alpha1.WatchRequest")
+					}
+				case t == "req" || strings.HasPrefix(t, "req.") || strings.HasPrefix(t, "*req"):
+					touched++
+				}
+			}
+		case *ast.IncDecStmt:
+			if strings.HasPrefix(src(n.X), "req.") {
+				touched++
+			}
+		case *ast.CallExpr:
+			if src(n) == "adapter.client.Watch(ctx, req)" {
+				sent++
+			}
+		}
+
+		return true
+	})
+
+	if defs != 1 || touched != 0 || sent != 1 {
+		return nil
+	}
+
+	return lit
+}
+
+func gCliApiVersion(fd *ast.FuncDecl) string {
+	lit := gWatchReqLit(fd)
+	if lit == nil {
+		return "(-1)"
+	}
+
+	keyed, seen := true, 0
+
+	var val ast.Expr
+
+	for _, el := range lit.Elts {
+		kv, ok := el.(*ast.KeyValueExpr)
+		if !ok {
+			keyed = false
+
+			continue
+		}
+
+		if src(kv.Key) == "ApiVersion" {
+			seen++
+			val = kv.Value
+		}
+	}
+
+	switch {
+	case !keyed || seen > 1:
+		return "(-1)"
+	case seen == 0:
+		return "0"
+	}
+
+	bl, ok := val.(*ast.BasicLit)
+	if !ok || bl.Kind != token.INT {
+		return "(-1)"
+	}
+
+	n, err := strconv.ParseInt(bl.Value, 0, 32)
+	if err != nil || n < 0 {
+		return "(-1)"
+	}
+
+	return strconv.FormatInt(n, 10)
+}
+
+func gCliIdField(fd *ast.FuncDecl) string {
+	lit := gWatchReqLit(fd)
+	if lit == nil {
+		return ".unknown"
+	}
+
+	seen := 0
+
+	var val ast.Expr
+
+	for _, el := range lit.Elts {
+		kv, ok := el.(*ast.KeyValueExpr)
+		if !ok {
+			return ".unknown"
+		}
+
+		if src(kv.Key) == "Id" {
+			seen++
+			val = kv.Value
+		}
+	}
+
+	switch {
+	case seen == 0:
+		return ".absent"
+	case seen == 1 && src(val) == "new(resourcePointer.ID())":
+		return ".pointerId"
+	}
+
+	return ".unknown"
 }
 
 // ---- vocabulary ---------------------------------------------------------------------
